@@ -155,7 +155,7 @@ pub fn run_case(f: &[&str]) -> String {
                     labels.push(format!("U:{}", w));
                 }
             }
-            rt::Ev::Wait { .. } | rt::Ev::NotifyAll { .. } => {}
+            _ => {}
         }
     }
     let _ = last_clock;
